@@ -305,6 +305,25 @@ Proof.
 Qed.
 Print Assumptions c01_sinks_stateless.
 
+(* Priority administration through the daemon's PortManager.  SetPriorityStatic(port, v) makes the port's
+   effective priority min(v, 200) in EVERY case - whatever mode (inherit or static), capability and
+   stored value it had before, in particular when v equals the value already stored while the port was
+   in inherit mode - and the next frame arriving on the patched port is stamped with it (so that is the
+   priority it is grouped and fanned out with); SetPriorityInherit(port) makes it the inherited priority
+   iff the port has the full capability; no other port is touched.  Neither call sends anything or
+   changes the frame (c01_admin). *)
+Theorem c01_priority_admin : forall w i v,
+  let ws := fst (step w (MgrStatic i v)) in
+  let wi := fst (step w (MgrInherit i)) in
+  port_priority (w_ports ws i) = N.min v 200 /\
+  port_priority (w_ports wi i) =
+    (if p_caps (w_ports w i) then p_inherited (w_ports w i) else p_static (w_ports w i)) /\
+  (forall j, j <> i -> w_ports ws j = w_ports w j /\ w_ports wi j = w_ports w j) /\
+  (forall d ts now, mem i (u_inputs (w_u w)) = true ->
+     s_prio (p_src (w_ports (fst (step ws (PortData i d ts now))) i)) = N.min v 200).
+Proof. exact priority_admin_lemma. Qed.
+Print Assumptions c01_priority_admin.
+
 (* No wrap-around of liveness, at any magnitude of time (time values are unbounded naturals here; there
    is no 2^31 / 2^32 us, ms or s beyond which an old frame comes back): a stored frame that is not live
    at some clock reading is not live at any later reading either, and is in no later group - a source
@@ -471,4 +490,15 @@ Example ex_two_universes :
   (e1, e2, e3, e4, e5) =
     ([SendDMX 3 [1] 100], [SendDMX 3 [2] 100], [SendDMX 3 [3] 100], [], [SendDMX 3 [4] 100]) /\
   u_buf (w_u (fst ww5)) = [3] /\ u_buf (w_u (snd ww5)) = [4].
+Proof. vm_compute. repeat split; reflexivity. Qed.
+
+(* inherit mode, then pinned back to static with the value the port already stores (100): the port
+   leaves inherit mode; its frame is grouped and fanned out at 100, not at the inherited 150 *)
+Example ex_priority_admin :
+  let w := run [AddInput 0; AddOutput 5; SetCaps 0 true; SetInherited 0 150; MgrInherit 0;
+                PortData 0 [1] 10 10] in
+  snd (step w (PortChanged 0 11)) = [WriteDMX 5 [1] 150] /\
+  let w' := fst (step w (MgrStatic 0 100)) in
+  snd (step w' (PortData 0 [2] 12 12)) = [WriteDMX 5 [2] 100] /\
+  snd (step (fst (step w' (MgrStatic 0 255))) (PortData 0 [3] 13 13)) = [WriteDMX 5 [3] 200].
 Proof. vm_compute. repeat split; reflexivity. Qed.
